@@ -509,6 +509,11 @@ ROUTINES = {
 
 def main():
     t0 = _real_time()
+    if os.environ.get("C09_PRIOR_RUN") == "1":      # an earlier call in this process (other seed, result discarded)
+        lg0 = MemoryLogger()
+        lg0.define_experiment(env_name="c09-prior", algorithm_name=ROUTINE, hparams=None)
+        ROUTINES[ROUTINE](SEED + 7, lg0)
+        NAN_LEAVES[0] = 0
     lg = MemoryLogger()
     lg.define_experiment(env_name="c09", algorithm_name=ROUTINE, hparams=None)
     objs = ROUTINES[ROUTINE](SEED, lg)
